@@ -32,7 +32,7 @@ class Res(wiring.Component):
 
 
 def n_cases(tier):
-    return 500 if tier == "quick" else 10000
+    return 4000 if tier == "quick" else 60000
 
 
 def gen_case(rng, tier, idx):
